@@ -24,6 +24,9 @@ func checkC12(r *Report, p *Program) {
 	// a rejected hook answer leaves nothing behind (ETag cache) that would keep failing after the fault is gone
 	hookCallOrder(r, p, "R12.6")
 	rmwResultSet(r, p, "R12.7")
+	failedResultNotUsed(r, p, "R12.8")
+	toleranceScope(r, p, "R12.9")
+	r12_10(r, p)
 }
 
 func allowedFor(s engine.Sink, under map[*ssa.Function]bool, releasers map[*ssa.Function]bool) []string {
@@ -635,5 +638,82 @@ func r12_5(r *Report, p *Program) {
 	}
 	if n < 2 {
 		r.Fail(rule, FK(pq), p.Pos(pq.Pos()), "anchor-lost", "parentQueueKey has fewer than 2 successful returns")
+	}
+}
+
+// r12_10: every hook call is bounded in time. A client without timeout turns a hook
+// that accepts the connection and never answers into a worker that never
+// returns: no error, nothing to retry, the parent is stuck for good.
+func r12_10(r *Report, p *Program) {
+	const rule = "R12.10"
+	r.Rule(rule, "NewWebhookExecutor builds its http.Client with Timeout = webhookTimeout()'s value on every path; webhookTimeout never returns a non-positive duration")
+	r.Floor(rule, 2)
+	if f := fn(r, p, rule, "hooks.NewWebhookExecutor"); f != nil {
+		ok, why := false, "no http.Client literal found"
+		for _, b := range f.Blocks {
+			for _, in := range b.Instrs {
+				a, isA := in.(*ssa.Alloc)
+				if !isA || !strings.HasSuffix(deref(a.Type()).String(), "net/http.Client") {
+					continue
+				}
+				sts := engine.FieldStores(a, "Timeout")
+				ok, why = true, ""
+				if len(sts) == 0 {
+					ok, why = false, "the http.Client's Timeout is never set (0 = no timeout)"
+					continue
+				}
+				for _, st := range sts {
+					c := engine.DependsOnCall(st.Val, engine.HasSuffix("hooks.webhookTimeout"), nil)
+					if c == nil || !engine.SameValue(st.Val, engine.ResultValue(c, 0)) {
+						ok, why = false, "Timeout is set to "+E(st.Val)+", not to the duration webhookTimeout returns"
+					}
+				}
+				// every use of the client (handing it on) has passed a Timeout store
+				if refs := a.Referrers(); refs != nil && ok {
+					for _, u := range *refs {
+						ci, isCall := u.(ssa.CallInstruction)
+						if !isCall {
+							continue
+						}
+						w := bypass(f, ci.(ssa.Instruction), func(x ssa.Instruction) bool {
+							for _, st := range sts {
+								if x == ssa.Instruction(st) {
+									return true
+								}
+							}
+							return false
+						})
+						if w != nil {
+							ok, why = false, "the client is handed on at "+p.InstrPos(ci)+" on a path that has not set its Timeout (e.g. only when webhookTimeout reported no error — but it returns the 10s default TOGETHER with the error for an invalid value): Timeout stays 0, a hanging hook blocks the worker forever; "+pathWhy(w)
+						}
+					}
+				}
+			}
+		}
+		r.Check(rule, FK(f)+"[client-timeout]", p.Pos(f.Pos()), ok, "Timeout := webhookTimeout() on every path", why)
+	}
+	if f := fn(r, p, rule, "hooks.webhookTimeout"); f != nil {
+		paths, err := engine.EnumPaths(f, engine.EnumOpts{})
+		ok, why := err == nil, ""
+		for _, pa := range paths {
+			if len(pa.Ret) < 1 {
+				continue
+			}
+			v := pa.Ret[0]
+			if c, isC := v.(*ssa.Const); isC {
+				if c.Int64() <= 0 {
+					ok, why = false, "returns the constant "+E(v)
+				}
+				continue
+			}
+			// a configured value: only behind 'not (value <= 0)'
+			ev := E(v)
+			if !pa.Has(false, func(a string) bool { return a == "(0 < "+ev+")" }) && !pa.Has(true, func(a string) bool { return a == "(0 < "+ev+")" }) {
+				ok, why = false, "returns "+ev+" without having tested it to be positive: ["+pa.Cond()+"]"
+			} else if pa.Has(false, func(a string) bool { return a == "(0 < "+ev+")" }) {
+				ok, why = false, "returns "+ev+" on the path where it is not positive"
+			}
+		}
+		r.Check(rule, FK(f)+"[positive]", p.Pos(f.Pos()), ok, "result is the positive configured value or the 10s default", why)
 	}
 }
